@@ -114,35 +114,13 @@ def _f_ifnotempty(failure):
     return False
 
 
-def _f_real10(failure):
-    if failure['kind'] != 'value' or not failure.get('obs'):
-        return False
-    case = fz.case_of(failure)
-    if not fz.real10_present(case['T'], case['v']):
-        return False
-    got = ir.from_jsonable(failure['obs']).get('got')
-    if got is None:
-        return False
-    T = case['T']
-
-    def flt(t, x):
-        if t['k'] == 'REAL' and isinstance(x, tuple) and x[1] == 10:
-            return ('float', '%.10e' % float('%de%d' % (x[0], x[2])))
-        return x
-    try:
-        a = fz.map_values(T, got, flt)
-        b = fz.map_values(T, fz.cer_drop(T, case['v']) if fz.well_formed(T, fz.cer_drop(T, case['v'])) else case['v'], flt)
-    except (OverflowError, ValueError, KeyError):
-        return False
-    return ir.jdump(ir.canon(T, a)) == ir.jdump(ir.canon(T, b))
 
 
-_MODEL_BASED = (_f_ifnotempty, _f_real10)
+_MODEL_BASED = (_f_ifnotempty,)
 _CER_SUBS = ('CER->CER', 'CER->BER')
 
 FINDINGS = {
     'F05-ifnotempty': _f_ifnotempty,
-    'F04-real10-float': _f_real10,
 }
 FINDINGS.update(fz.by_neutralising_all(run_case, [
     ('F01-stray-eoo', fz.explicit_over_nonindef_prim, fz.neutralise_explicit_prims),
